@@ -69,6 +69,25 @@ EXPECTED_KW = {
     'TSTRUCT': 't = tagspec(s); ++ntypes; break;',
 }
 
+# features documented as unsupported (README "What's missing", doc/extensions.md "Missing", the property text):
+# each must be witnessed by at least one catalogue template containing the given text
+DOCUMENTED_UNSUPPORTED = {
+    'digraphs (README)': '<:', 'digraph %: (README)': '%:define',
+    'variable-length arrays with static storage (README #1)': 'static int x_[h_v]',
+    'VLA initializer / [*] outside prototypes (README #1)': '[*]',
+    'volatile-qualified types: stores (README #7)': 'vi_ = 1',
+    'long double (README #3)': 'ld_ = ld_ + 1',
+    'inline assembly (README #5)': '__asm__("nop");',
+    'preprocessor: #if (README #6)': '#if 1', 'preprocessor: #ifdef': '#ifdef', 'preprocessor: #ifndef': '#ifndef',
+    'preprocessor: #include': '#include <stddef.h>', 'preprocessor: ## operator': 'a ## b', 'preprocessor: #error': '#error',
+    'preprocessor: #elif/#endif': '#endif',
+    '_Atomic (property text)': '_Atomic int x_', '_Complex (property text)': 'double _Complex x_',
+    'statement expressions (doc/extensions.md)': '({ 1; })',
+    'empty top-level declarations (doc/extensions.md)': None,
+    'conditional with omitted operand (doc/extensions.md)': 'h_v ?: 2',
+    'va_arg of aggregate type (todo #52)': '__builtin_va_arg(ap_, struct s_)',
+}
+
 # ------------------------------------------------------------------------------------------------ Python specification
 TS_ROWS = {}
 for _ms, _t in [
@@ -387,6 +406,7 @@ def run(ctx):
                 accepted_by_tpl.setdefault(t.tid, []).append((j, v, d))
             elif not t.finding:
                 drift.setdefault(t.tid, []).append((p, d))
+        bykey = {}
         for tid, lst in sorted(accepted_by_tpl.items()):
             (e, t, p, src, desc), v, d = lst[0]
             # shrink: the same template in the smallest host
@@ -400,9 +420,14 @@ def run(ctx):
                 t.code.replace('\n', '\\n')[:120], e.file, e.func, e.cur_text, p, desc, d[:160], ' '.join(sorted({x[0][2] for x in lst}))))
             rt, ext = replay_text(src, tid, p, t.cli, t.target or 'x86_64-sysv', what)
             key = t.finding or ('C10-accepted:%s:%s:%s' % (e.file, e.func, e.text))
-            ctx.violation(what, rt, ext, key=key)
+            bykey.setdefault(key, []).append((what, rt, ext))
             if t.finding:
                 stats['findings_reproduced'].append(t.finding)
+        for key, lst in bykey.items():
+            what, rt, ext = lst[0]
+            if len(lst) > 1:
+                what += ' || further templates of this class: ' + ' || '.join(re.search(r'template `(.*?)` for', w).group(1) for w, _, _ in lst[1:])
+            ctx.violation(what, rt, ext, key=key)
         stats['findings_reproduced'] = sorted(set(stats['findings_reproduced']))
         ctx.ob('K1:every-template-rejected-at-every-position (%d runs)' % len(results), not accepted_by_tpl)
         ctx.ob('K1:every-template-triggers-its-own-site', not drift)
@@ -413,6 +438,12 @@ def run(ctx):
             for t in e.templates:
                 if t.finding and t.tid not in accepted_by_tpl and C.positions(t):
                     ctx.notes.append('recorded finding %s did not reproduce with template `%s`' % (t.finding, t.code[:60]))
+        codes = [t.code for e in entries for t in e.templates]
+        undocumented = [k for k, v in DOCUMENTED_UNSUPPORTED.items()
+                        if not any((c.strip() == ';') if v is None else (v in c) for c in codes)]
+        ctx.ob('K1:documented-unsupported-features-have-templates (%d)' % len(DOCUMENTED_UNSUPPORTED), not undocumented)
+        if undocumented:
+            ctx.broken('table', 'documented-unsupported features without a catalogue template', '\n'.join(undocumented))
         # second opinion
         gjobs = [t for e in entries for t in e.templates if t.gcc is True]
         gres = vlib.parallel_map(lambda t: C.run_gcc(C.gcc_program(t)), gjobs)
@@ -447,9 +478,23 @@ def run(ctx):
 
 
 def k2(ctx, rng, thorough, oracle, stats, samples, nontrivial):
+    pending = {}
+
+    def viol(what, rt, ext, key):
+        pending.setdefault(key, []).append((len(rt) if isinstance(rt, str) else 10 ** 6, what, rt, ext))
+    try:
+        k2_body(ctx, rng, thorough, oracle, stats, samples, nontrivial, viol)
+    finally:
+        for key, lst in pending.items():
+            lst.sort(key=lambda x: x[0])
+            n, what, rt, ext = lst[0]
+            ctx.violation(what + (' (and %d more inputs of this class)' % (len(lst) - 1) if len(lst) > 1 else ''), rt, ext, key=key)
+
+
+def k2_body(ctx, rng, thorough, oracle, stats, samples, nontrivial, viol):
     # ---- (a) type specifier lists
     seqs = set()
-    maxlen_all = 4 if thorough else 3
+    maxlen_all = 5 if thorough else 3
     for n in range(0, maxlen_all + 1):
         for s in itertools.product(TS_KW, repeat=n):
             seqs.add(s)
@@ -460,8 +505,8 @@ def k2(ctx, rng, thorough, oracle, stats, samples, nontrivial):
                 rng.shuffle(l)
                 seqs.add(tuple(l))
     if thorough:
-        for _ in range(40000):
-            n = rng.choice([5, 5, 6, 7])
+        for _ in range(30000):
+            n = rng.choice([6, 6, 7, 8])
             seqs.add(tuple(rng.choice(TS_KW) for _ in range(n)))
     seqs.discard(())
     seqs = sorted(seqs)
@@ -479,7 +524,7 @@ def k2(ctx, rng, thorough, oracle, stats, samples, nontrivial):
         real_ok = rc == 0
         if real_ok and stype is None:
             rt, ext = replay_text(src, 'typespec:' + ' '.join(s), place, [], 'x86_64-sysv', 'invalid type specifier list accepted')
-            ctx.violation('type specifier list `%s` (not one of the multisets of C11 6.7.2p2) accepted in %s position' % (' '.join(s), place), rt, ext,
+            viol('type specifier list `%s` (not one of the multisets of C11 6.7.2p2) accepted in %s position' % (' '.join(s), place), rt, ext,
                           key='C10-typespec-accepted')
         elif not real_ok and stype is not None:
             dis_model.append(('valid list rejected (or given another type): ' + ' '.join(s), err.strip()[:150]))
@@ -521,7 +566,7 @@ def k2(ctx, rng, thorough, oracle, stats, samples, nontrivial):
             dis.append('extracted spec %s %s vs python %s for %s/%s/%s' % (a_sc, a_sx, s_ok, s, c, k))
         if rc == 0 and not s_ok:
             rt, ext = replay_text(src, 'storage:' + ' '.join(s), c + '/' + k, [], 'x86_64-sysv', 'invalid storage-class specifiers accepted')
-            ctx.violation('storage-class specifiers `%s` on a %s at %s scope accepted (C11 6.7.1p2-3,7, 6.9p2, 6.7.6.3p2)' % (' '.join(s), k, c), rt, ext,
+            viol('storage-class specifiers `%s` on a %s at %s scope accepted (C11 6.7.1p2-3,7, 6.9p2, 6.7.6.3p2)' % (' '.join(s), k, c), rt, ext,
                           key='C10-storage-accepted')
         elif (rc == 0) != m_ok or (rc != 0 and s_ok):
             dis.append('cproc rc=%d model %s %s spec %s: `%s` %s/%s: %s' % (rc, a_sc, a_sx, s_ok, ' '.join(s), c, k, err.strip()[:100]))
@@ -563,10 +608,11 @@ def k2(ctx, rng, thorough, oracle, stats, samples, nontrivial):
             if kind == 'bool' and not al and not pk and 1 < w <= 8:
                 boolfound = boolfound or (cs, src)
             elif al and not named and spec_bitfield(kind, size, w, named, False, pk):
-                unnamedal = unnamedal or (cs, src)
+                if unnamedal is None or (tn, w) == ('int', 8):
+                    unnamedal = (cs, src)
             else:
                 rt, ext = replay_text(src, 'bitfield', repr(cs), [], 'x86_64-sysv', 'invalid bit-field accepted')
-                ctx.violation('bit-field `%s : %d`%s%s%s accepted (C11 6.7.2.1p4-5, 6.7.5p2)' % (tn, w, '' if named else ' unnamed', ' _Alignas' if al else '', ' packed' if pk else ''),
+                viol('bit-field `%s : %d`%s%s%s accepted (C11 6.7.2.1p4-5, 6.7.5p2)' % (tn, w, '' if named else ' unnamed', ' _Alignas' if al else '', ' packed' if pk else ''),
                               rt, ext, key='C10-bitfield-accepted')
         elif (rc == 0) != m_ok or (rc != 0 and s_ok):
             dis.append('cproc rc=%d model %s spec %s for %r: %s' % (rc, a, s_ok, cs, err.strip()[:100]))
@@ -575,13 +621,13 @@ def k2(ctx, rng, thorough, oracle, stats, samples, nontrivial):
     if boolfound:
         cs, src = boolfound
         rt, ext = replay_text(src, 'bitfield', repr(cs), [], 'x86_64-sysv', '_Bool bit-field wider than 1 bit accepted')
-        ctx.violation('bit-field `_Bool : %d` accepted: the width of _Bool is 1 (C11 6.7.2.1p4; C10_bitfield_constraints_refuted)' % cs[4], rt, ext,
+        viol('bit-field `_Bool : %d` accepted: the width of _Bool is 1 (C11 6.7.2.1p4; C10_bitfield_constraints_refuted)' % cs[4], rt, ext,
                       key='C10-bool-bitfield-width')
         stats['findings_reproduced'] = sorted(set(stats['findings_reproduced'] + ['C10-bool-bitfield-width']))
     if unnamedal:
         cs, src = unnamedal
         rt, ext = replay_text(src, 'bitfield', repr(cs), [], 'x86_64-sysv', 'alignment specifier on an unnamed bit-field accepted')
-        ctx.violation('`_Alignas(8) %s : %d;` accepted: alignment specifier in the declaration of an (unnamed) bit-field (C11 6.7.5p2; '
+        viol('`_Alignas(8) %s : %d;` accepted: alignment specifier in the declaration of an (unnamed) bit-field (C11 6.7.5p2; '
                       'C10_bitfield_alignas_unnamed_refuted)' % (cs[0], cs[4]), rt, ext, key='C10-alignas-unnamed-bitfield')
         stats['findings_reproduced'] = sorted(set(stats['findings_reproduced'] + ['C10-alignas-unnamed-bitfield']))
     ctx.ob('K2:bit-fields cproc = model = 6.7.2.1 (%d declarations)' % len(cases), not dis)
@@ -616,7 +662,7 @@ def k2(ctx, rng, thorough, oracle, stats, samples, nontrivial):
         m_ok = a == 'AL ok'
         if rc == 0 and not s_ok:
             rt, ext = replay_text(src, 'alignas', repr((tn, vs)), [], 'x86_64-sysv', 'invalid alignment accepted')
-            ctx.violation('alignment specifiers %r on `%s` accepted (C11 6.7.5p3-4)' % (vs, tn), rt, ext, key='C10-alignas-accepted')
+            viol('alignment specifiers %r on `%s` accepted (C11 6.7.5p3-4)' % (vs, tn), rt, ext, key='C10-alignas-accepted')
         elif (rc == 0) != m_ok or (rc != 0 and s_ok and limit):
             dis.append('cproc rc=%d model %s spec %s for %s %r: %s' % (rc, a, s_ok, tn, vs, err.strip()[:100]))
         else:
@@ -650,7 +696,7 @@ def k2(ctx, rng, thorough, oracle, stats, samples, nontrivial):
         m_ok = a == 'AR ok'
         if rc == 0 and not s_ok:
             rt, ext = replay_text(src, 'array', desc, [], 'x86_64-sysv', 'invalid array declarator accepted')
-            ctx.violation('array declarator `%s` accepted (C11 6.7.6.2p1)' % desc, rt, ext, key='C10-array-accepted')
+            viol('array declarator `%s` accepted (C11 6.7.6.2p1)' % desc, rt, ext, key='C10-array-accepted')
         elif (rc == 0) != m_ok or (rc != 0 and s_ok):
             dis.append('cproc rc=%d model %s spec %s for %s: %s' % (rc, a, s_ok, desc, err.strip()[:100]))
         else:
@@ -700,7 +746,7 @@ def k2(ctx, rng, thorough, oracle, stats, samples, nontrivial):
         real = 'ok' if rc == 0 else ('notenough' if 'not enough arguments' in err else 'toomany' if 'too many arguments' in err else 'eof' if 'EOF when reading' in err else 'other:' + err.strip()[:60])
         if rc == 0 and not s_ok:
             rt, ext = replay_text(src, 'arity', repr((named, variadic, s)), ['-E'], 'x86_64-sysv', 'macro invocation with a wrong number of arguments accepted')
-            ctx.violation('invocation `H_M(%s` of a macro with %d parameter(s)%s accepted (C11 6.10.3p4)' % (s, named, ' and ...' if variadic else ''), rt, ext,
+            viol('invocation `H_M(%s` of a macro with %d parameter(s)%s accepted (C11 6.10.3p4)' % (s, named, ' and ...' if variadic else ''), rt, ext,
                           key='C10-macro-arity-accepted')
         elif real != m:
             dis.append('cproc %s model %s spec %s for %r' % (real, a, s_ok, (named, variadic, s)))
